@@ -10,6 +10,13 @@
 // Part C: the walker (ffs.NodeVisitor), the node selectors and the data sources on the
 //
 //	bundled images and images derived from them, against the harness' own ground truth.
+//
+// Sessions (sessions.go): the same objects used again and the caller's memory re-read --
+//
+//	mapper calls on slices of arrays the harness owns (several ranges, spare capacity, the
+//	same list twice, the answer converted back, writes of the caller in between), one
+//	NodeVisitor object for several Runs on other trees / other AddOffset, one data source
+//	object for several images.
 package main
 
 import (
@@ -82,8 +89,9 @@ func main() {
 	imagesPart(ctx, fake, galago)
 	ctx.Finish("A: sizes {1, 64K, 8M, 16M, 32M, 0x5e0000, 2^32-1, 2^32, 0, >2^32, random} x offsets {0, 1, size-1, size, size+1, random<size, random u64}: " +
 		"PhysMemMapper (all six entry points, range lists), UEFI.PhysAddrToOffset/OffsetToPhysAddr, consts.Calculate*, both isPhysAddr copies; " +
+		"A': mapper sessions on arrays the harness owns (1-2 lists of 1-7 ranges, slices with spare capacity behind them, 3-7 steps: any entry point x any artifact incl. real BIOSImages, via method / types.AddressMapper / Reference.ResolvedRanges, the same question again, the inverse on the answer, the caller writing into a list or an answer; all arrays re-read after every step); " +
 		"B: CalcImageOffset on full-flash (descriptor + BIOS region, BIOS last / not last), coreboot (FMAP), bare BIOS region and unparseable images x address classes; " +
-		"C: NodeVisitor (fallback on/off, AddOffset, random stop answers), GetByGUID/Range/RegionType, UEFIGUIDFirst, UEFIFilesByType/ByName, VolumeOf, MemRanges, FITFirst/FITAll, ACMDate, IBB, PCR0_DATA on " +
+		"C: NodeVisitor (fallback on/off, AddOffset, random stop answers; ONE visitor object for 3-5 Runs over image families with the same volumes at other offsets, other AddOffset, flipped fallback, sub-trees, pruned and aborted Runs, each Run judged against its image's ground truth and a fresh visitor), one data source object for several images, VolumeOf(MemRanges(multi-range list with spare capacity)) repeated, GetByGUID/Range/RegionType, UEFIGUIDFirst, UEFIFilesByType/ByName, VolumeOf, MemRanges, FITFirst/FITAll, ACMDate, IBB, PCR0_DATA on " +
 		"GALAGOPRO3, the synthetic Intel image, both behind a flash descriptor, tail truncations and parse-preserving byte mutations; " +
 		"synthetic BIOS regions built from the PI layouts (few GUIDs used many times as file and volume names: inside zlib/LZMA-compressed sections, nested compressed sections, after them, in sibling and nested volumes; named/unnamed volumes, pad and raw files, non-processed sections); " +
 		"the synthetic Intel image with re-shaped Boot Policy / Key Manifests (IBB digest list in every order and composition: SHA1 first/last/absent/twice, other algorithms and odd buffer lengths in between; PostIBB/OBB hashes, extra segments, TXT/PM elements present or not, more KM hashes, manifests moved) for PCR0_DATA, incl. the digest-reference search as correspondence cases")
